@@ -767,6 +767,28 @@ def process_vcs(read, T, log=None):
                      using=inv(idx_h, tr_h, cnt_h, bound_cnt) + [g.t, v("chunk_size") <= CHUNK_MAX, v("chunk_size") >= 1, T0 > 0,
                                                                  z3.ToReal(cnt_h + 1) * T0 <= chr_ * T0] + list(es.assumes))
         access_goals(vs, es, st, arm, fill_now, cnt_h)
+        if not kind.sinc:
+            # C08 window choice: the W samples nearest to the instant, abscissa = fractional part of the instant
+            WIN = {"Septic": (3, 8, "interp_septic"), "Quintic": (2, 6, "interp_quintic"), "Cubic": (1, 4, "interp_cubic"),
+                   "Linear": (0, 2, "interp_lin"), "Nearest": (0, 1, None)}
+            if arm.name in WIN and getattr(vs, "window", None) is not None:
+                off, W, fname = WIN[arm.name]
+                a_, b_ = vs.window
+                idxn = es.vars["idx"].t
+                vs.goal("C08 the %s arm reads the %d samples starting %d before floor(instant): window == [floor(idx)-%d, floor(idx)-%d+%d) + 2L" % (
+                    arm.name, W, off, off, off, W), z3.And(a_ == zfloor(idxn) - off + 2 * L, b_ - a_ == W))
+                if fname is not None:
+                    if "frac" not in es.vars:
+                        raise Undecided("anchor lost: no `frac` in arm %s" % arm.name)
+                    vs.goal("C08 the abscissa is the fractional part of the instant: frac == idx - floor(idx)",
+                            es.vars["frac"].t == idxn - z3.ToReal(zfloor(idxn)))
+                    calls = [rp.show(n[1]) for n in rp.walk(arm.chan_loop[3]) if n[0] == "call" and rp.show(n[1]).startswith("interp_")]
+                    args_ok = [n for n in rp.walk(arm.chan_loop[3]) if n[0] == "call" and rp.show(n[1]) == fname and
+                               [rp.show(x) for x in n[2]] == ["frac_offset", "buf"]]
+                    fo = [st_ for st_ in arm.stepping if st_[0] == "let" and st_[1][2] == ["frac_offset"]]
+                    fo_ok = bool(fo) and rp.show(fo[0][3]) in ("T::coerce(frac)", "T::coerce_from(frac)", "t!(frac)")
+                    ok = calls == [fname] and bool(args_ok) and fo_ok
+                    vs.goal("C08 the %s arm evaluates %s(frac, window) - the interpolant of its own degree" % (arm.name, fname), z3.BoolVal(ok))
         mark2 = len(es.side)
         for s_ in arm.after:
             es.exec_stmt(s_)
